@@ -20,12 +20,23 @@ def node_kinds(chk):
     rule = "O5.1"
     outer = prog.func(YAML_CTOR)
     inner = [f for f in prog.functions.values() if f.parent is outer]
+    bound_env = None
+    if not inner:
+        # return functools.partial(<module-level constructor>, factory, eager): its leading parameters are the outer's
+        for r in ast.walk(outer.node):
+            if isinstance(r, ast.Return) and isinstance(r.value, ast.Call) and prog.resolve(outer.module, r.value.func) == "ext:functools.partial" and r.value.args:
+                g = prog.functions.get(prog.resolve(outer.module, r.value.args[0]) or "")
+                if g is not None and g.cls is None:
+                    inner = [g]
+                    bound = r.value.args[1:]
+                    bound_env = {("sym", p): ("sym", a.id) for p, a in zip(g.params(), bound) if isinstance(a, ast.Name)}
+                    bound_env.update({("sym", k.arg): ("sym", k.value.id) for k in r.value.keywords if k.arg and isinstance(k.value, ast.Name)})
     if len(inner) != 1:
         chk.undecided(rule, outer.qual, "yaml_constructor does not define exactly one constructor function", node=outer.node)
         return
     fi = inner[0]
     name = fi.qual
-    params = fi.params()
+    params = [p for p in fi.params() if ("sym", p) not in (bound_env or {})]
     loader, node = ("sym", params[0]), ("sym", params[1])
     ok = True
     KINDS = {"MappingNode": "mapping", "SequenceNode": "sequence", "ScalarNode": "scalar", None: "other"}
@@ -39,7 +50,8 @@ def node_kinds(chk):
             return None
 
         # module-level helpers of the same module that do the node dispatch are inlined; `deep` is whatever they are given
-        outs = Interp(prog, fi, decide=decide, inline=lambda f, ct: f.cls is None and f.module is fi.module and f.parent is None and not f.is_async).run()
+        _it = Interp(prog, fi, decide=decide, inline=lambda f, ct: f.cls is None and f.module is fi.module and f.parent is None and not f.is_async and f is not fi)
+        outs = _it.run(env=bound_env) if bound_env else _it.run()
         chk.count(len(outs))
 
         def drop_empty(ct):
@@ -86,7 +98,7 @@ def node_kinds(chk):
                 ok = False
     # the constructor function is what yaml_constructor returns
     rets = [n for n in outer.node.body if isinstance(n, ast.Return)]
-    if not rets or not (isinstance(rets[-1].value, ast.Name) and rets[-1].value.id == fi.name):
+    if bound_env is None and (not rets or not (isinstance(rets[-1].value, ast.Name) and rets[-1].value.id == fi.name)):
         chk.bad(rule, outer.qual, "yaml_constructor does not return its constructor function", node=outer.node, stmt="no-return")
         ok = False
     if ok:
@@ -341,6 +353,8 @@ def linking_loop(chk):
         return None
     outs = Interp(prog, fi, sub_hook=sub_hook).run()
     for o in outs:
+        if not any(e[0] == "raised-at-subscript" for e in o.path.events):
+            continue  # ended before the lookup of the pipeline key (an argument guard)
         if o.kind != "return" or not (o.value[0] == "call" and o.value[1][0] == "attr" and o.value[1][2] == "translate_hierarchy" and o.value[1][1][0] == "call"):
             chk.bad(rule, name, "a structure without a pipeline key is not delegated to the plain translation", node=fi.node, stmt="delegate")
         else:
